@@ -654,9 +654,13 @@ func (l *LanguageServer) StartConfigWorker(ctx context.Context) {
 				l.cache.ClearIgnoredFileContents(k)
 			}
 
+			// the loaded config may be dropped (set to nil) again before the
+			// goroutine runs, so the setting is read from the config merged above
+			checkVersion := mergedConfig.Features.Remote.CheckVersion
+
 			//nolint:contextcheck
 			go func() {
-				if l.getLoadedConfig().Features.Remote.CheckVersion &&
+				if checkVersion &&
 					os.Getenv(update.CheckVersionDisableEnvVar) != "" {
 					update.CheckAndWarn(update.Options{
 						CurrentVersion: version.Version,
